@@ -157,6 +157,9 @@ def rule_r2(p, res):
     for cname, attr in (("LandmarkManager", "_landmark_groups"), ("LabelledPointUndirectedGraph", "_labels_to_masks")):
         f = known.get(cname)
         need(f is not None, "C06.R2: copy override of %s missing" % cname)
+        for lp in [n for n in walk_own(f.node) if isinstance(n, ast.For)]:
+            inner = [x for x in ast.walk(lp) if isinstance(x, (ast.Return, ast.Break))]
+            r.check(not inner, f, inner[0] if inner else lp, "%s.copy leaves its element loop early (`%s` inside the loop): only the first element is copied, the others stay shared" % (cname, norm(inner[0])[:30] if inner else ""))
         r.check(_override_deepens(f, attr) is True, f, f.node, "%s.copy must re-copy every element of %s" % (cname, attr), {"override": f.short, "deepens": attr})
         # it must write into the *new* object
         for n in walk_own(f.node):
@@ -208,6 +211,12 @@ def rule_r3(p, res):
     r.check(norm(returns_of(gt.node)[0].value) == "self._landmarks", gt, gt.node, "the landmarks getter returns the owned manager")
 
 
+def _conjuncts(t):
+    if isinstance(t, ast.BoolOp) and isinstance(t.op, ast.And):
+        return sorted(str(norm(v)) for v in t.values)
+    return [str(norm(t))]
+
+
 def rule_r4(p, res):
     r = res.rule("C06.R4", "__setitem__ guards dominate the store; None key only for a single group; order never re-arranged")
     si = p.own_method("LandmarkManager", "__setitem__")
@@ -219,10 +228,13 @@ def rule_r4(p, res):
     from ..astutil import raising_ifs
     want = {
         "None key": lambda t, pol: pol and norm(t) == "%s is None" % grp,
-        "dimensionality": lambda t, pol: pol and (("%s.n_dims != n_dims" % val) in norm(t) or ("%s.n_dims != self.n_dims" % val) in norm(t)),
+        "dimensionality": lambda t, pol: pol and _conjuncts(t) in (["n_dims is not None", "%s.n_dims != n_dims" % val], ["self.n_dims is not None", "%s.n_dims != self.n_dims" % val]),
         "PointCloud type": lambda t, pol: (not pol) and norm(t) == "isinstance(%s, PointCloud)" % val,
     }
     rifs = raising_ifs(si.node)
+    nd = Defs(si.node).single("n_dims")
+    r.check(nd is None or norm(nd) == "self.n_dims", si, si.node, "the dimensionality a new group is checked against must be the manager's own (found `%s`): a group could be stored next to groups "
+            "of another dimensionality" % (norm(nd) if nd is not None else None), {"n_dims_source": norm(nd) if nd is not None else None})
     for what, pred in want.items():
         ifs = [n for t, pol, n in rifs if pred(t, pol)]
         raise_stmts = []
@@ -313,5 +325,9 @@ WITNESSES = [
     Witness("C06.W7", "menpo/transform/homogeneous/base.py", "HomogFamilyAlignment.copy", "new._h_matrix = new._h_matrix.copy()", "pass", rule="C06.R2", construct="HomogFamilyAlignment.copy"),
     Witness("C06.W8", "menpo/base.py", "Copyable.copy", "new.__dict__[k] = v.copy()", "new.__dict__[k] = v", rule="C06.R1", construct="Copyable.copy"),
     Witness("C06.W9", "menpo/landmark/base.py", "LandmarkManager.__getitem__", "if self.n_groups == 1:", "if self.n_groups >= 1:", rule="C06.R4", construct="__getitem__"),
+    Witness("C06.W10", "menpo/shape/labelled.py", "LabelledPointUndirectedGraph.copy", "        new._labels_to_masks[k] = v.copy()\n    return new", "        new._labels_to_masks[k] = v.copy()\n        return new",
+            rule="C06.R2", construct="LabelledPointUndirectedGraph.copy", note="seeded change R2-C06-B"),
+    Witness("C06.W11", "menpo/landmark/base.py", "LandmarkManager.__setitem__", "n_dims = self.n_dims", "n_dims = self.n_dims if group not in self._landmark_groups else None",
+            rule="C06.R4", construct="__setitem__", note="seeded change R2-C06-A"),
     Witness("C06.T1", "menpo/landmark/base.py", "LandmarkManager.__setitem__", "lmark_group = value.copy()\n    self._landmark_groups[group] = lmark_group", "self._landmark_groups[group] = value.copy()", kind="T"),
 ]
